@@ -262,6 +262,12 @@ func (e *Engine) ropeEq(a, b Rope) *Term {
 	if conj[0].isFalse() {
 		return conj[0]
 	}
+	// cheap refutation on the first byte (avoids a fork on the lengths)
+	if fa, ok := e.firstByte(a); ok {
+		if fb, ok := e.firstByte(b); ok && e.tt.Eq(fa, fb).isFalse() {
+			return e.tt.Bool(false)
+		}
+	}
 	// under the assumption of equal length, walk both
 	if !conj[0].isTrue() {
 		// need the assumption for alignment decisions: fork on it
@@ -280,6 +286,18 @@ func (e *Engine) ropeEq(a, b Rope) *Term {
 		if l := e.segLen(sb); l.isConst() && l.u64() == 0 {
 			b = b[1:]
 			continue
+		}
+		// whole items: byte equality <=> tree equality
+		if ia, ok := sa.(SegItem); ok {
+			if ib, ok := sb.(SegItem); ok {
+				c := e.nodeEq(ia.node, ib.node)
+				if c.isFalse() {
+					return c
+				}
+				conj = append(conj, c)
+				a, b = a[1:], b[1:]
+				continue
+			}
 		}
 		// identical opaque segments
 		if t, ok := e.segSame(sa, sb); ok {
@@ -369,7 +387,7 @@ func (e *Engine) segSame(a, b Seg) (*Term, bool) {
 			if x.node == y.node {
 				return e.tt.Bool(true), true
 			}
-			if x.node.major == y.node.major && x.node.wvar == nil && y.node.wvar == nil && !x.node.indef && !y.node.indef && x.node.major >= 0 {
+			if x.node.major == y.node.major && x.node.neg == nil && y.node.neg == nil && x.node.wvar == nil && y.node.wvar == nil && !x.node.indef && !y.node.indef && x.node.major >= 0 {
 				return e.tt.Eq(x.node.arg, y.node.arg), true
 			}
 		}
@@ -470,4 +488,99 @@ func (e *Engine) ropeString(r Rope) string {
 		return "h''"
 	}
 	return sb.String()
+}
+
+// nodeEq: the two items have identical encodings (iff).
+func (e *Engine) nodeEq(a, b *Node) *Term {
+	tt := e.tt
+	if a == b {
+		return tt.Bool(true)
+	}
+	if a.major < 0 || b.major < 0 {
+		a2, b2 := e.derefRaw(a), e.derefRaw(b)
+		if a2.major < 0 || b2.major < 0 {
+			// unparsable raw: compare as ropes
+			ra, rb := e.unfoldItem(a2), e.unfoldItem(b2)
+			return e.ropeEq(ra, rb)
+		}
+		a, b = a2, b2
+		if a == b {
+			return tt.Bool(true)
+		}
+	}
+	var conj []*Term
+	// major type
+	switch {
+	case a.neg == nil && b.neg == nil:
+		if a.major != b.major {
+			return tt.Bool(false)
+		}
+	default:
+		ma, mb := tt.Bool(a.major == 1), tt.Bool(b.major == 1)
+		if a.neg != nil {
+			ma = a.neg
+		} else if a.major > 1 {
+			return tt.Bool(false)
+		}
+		if b.neg != nil {
+			mb = b.neg
+		} else if b.major > 1 {
+			return tt.Bool(false)
+		}
+		conj = append(conj, tt.Eq(ma, mb))
+	}
+	if a.indef != b.indef {
+		return tt.Bool(false)
+	}
+	conj = append(conj, tt.Eq(a.arg, b.arg))
+	if a.wvar != nil || b.wvar != nil {
+		conj = append(conj, tt.Eq(e.nodeWidth(a), e.nodeWidth(b)))
+	}
+	switch a.major {
+	case 2, 3:
+		conj = append(conj, e.ropeEq(a.content, b.content))
+	case 4, 5, 6:
+		if len(a.kids) != len(b.kids) {
+			return tt.Bool(false)
+		}
+		if a.major == 5 && (!a.sorted || !b.sorted) && a.sortMode == b.sortMode {
+			// same entries in the same insertion order are sufficient
+			var c2 []*Term
+			for i := range a.kids {
+				c2 = append(c2, e.nodeEq(a.kids[i], b.kids[i]))
+			}
+			all := tt.And(c2...)
+			if !all.isFalse() && e.mustBe(all) {
+				return tt.And(conj...)
+			}
+		}
+		e.resolveOrder(a)
+		e.resolveOrder(b)
+		for i := range a.kids {
+			conj = append(conj, e.nodeEq(a.kids[i], b.kids[i]))
+		}
+	}
+	return tt.And(conj...)
+}
+
+// firstByte: the first byte of a rope if its first segment is certainly non-empty.
+func (e *Engine) firstByte(r Rope) (*Term, bool) {
+	if len(r) == 0 {
+		return nil, false
+	}
+	switch x := r[0].(type) {
+	case SegLit:
+		return e.tt.BVu(uint64(x.b[0]), 8), true
+	case SegSym:
+		return x.t, true
+	case SegHead:
+		if x.node.major >= 0 {
+			return e.headByte(x.node, 0), true
+		}
+	case SegItem:
+		if x.node.major >= 0 {
+			return e.headByte(x.node, 0), true
+		}
+	}
+	return nil, false
 }
